@@ -10,6 +10,7 @@ import numpy as np
 
 from rv import core, zoo, monitors
 
+ANCHORS = ['to_rfi', 'to_mef', 'transform', 'high_low']      # functions the property is anchored in: never entered => inconclusive
 LEVEL = 'exploration'
 LEVEL_TEXT = 'Bitwise oracle: every event that sat at an original range limit must have exactly the value of the new limit after to_rfi/to_mef/transform, and the real default saturation gate must commute with the conversions; evaluated on tens of thousands of amplifier/curve parameter draws. Exploration (numerical outcome depends on the NumPy build, recorded in evidence).'
 TECHNIQUE = 'runtime contract on conversions (bitwise limit-vs-saturated-event oracle) + commutation checker of two real pipelines'
